@@ -18,10 +18,11 @@ from .contract import REGISTRY
 from .engine import Engine
 from .vals import EngineError
 from .extract import StaleContract
-from .models import pylists  # noqa: F401  (registers the models)
+from .models import pylists, pyannote_  # noqa: F401  (registers the models)
+from . import heap  # noqa: F401  (tier B layer)
 
 ROOT = os.path.dirname(os.path.dirname(os.path.abspath(__file__)))
-CONTRACT_MODULES = ["numba_utils", "dissimilarity"]
+CONTRACT_MODULES = ["numba_utils", "dissimilarity", "continuum"]
 VENV_PY = "/venv/bin/python"
 
 
